@@ -33,6 +33,13 @@ CHECKS = {
     text="WsConn.tla: TLC checks that reads concatenate to the stream of binary payloads for all splits and read sizes in the bound; WsSeg.tla enumerates segmentations (all compositions of short streams, boundary families around the 1024-byte "
          "reader buffer, cuts at -1/0/+1 of every packet boundary, empty and text messages); each is sent through gorilla/websocket to a real broker and the answers are compared byte for byte with the same stream over TCP.",
     note="Bounded stream lengths / families; trusted: gorilla/websocket client, TCP twin as reference."),
+ "C07": dict(
+    level="model_checking", ref="DESIGN.md §4 C07",
+    technique="TLC exhaustive Retained.tla + transition-coverage replay into retained/trie; trace validation of retained histories and subscriptions against Broker.tla",
+    text="Store: TLC explores Retained.tla (last value per topic, clear on empty payload, lookups by filter defined from Topics!Match) and every transition is replayed on trie.NewStore() with all lookups compared. "
+         "Broker: seeded histories of retained publishes/clears (also through topic aliases) followed by subscriptions of every shape (filter, QoS, Retain Handling 0/1/2, RAP, v3/v5, shared, re-subscription); "
+         "TLC validates every recorded event: which retained messages are replayed, once each, at min(QoS), with RETAIN=1, and RETAIN on live forwarding only under RAP.",
+    note="One open known finding (replay RETAIN follows RAP) is modelled as a named deviation: traces are validated with it switched on (so everything else is still checked) and strictly to report it. Bounded alphabets/scenario sizes."),
 }
 
 NOT_YET = {
